@@ -16,7 +16,8 @@ KINDS_SMALL = ["absent", "null", "int", "float", "s_abc", "s_int", "l_empty", "l
 KINDS_LIT = ["absent", "null", "s_abc", "s_xyz", "s_near", "s_long", "s_uni", "s_esc", "s_int", "l_strs15", "l_strs16", "l_rep16",
              "l_strs8a", "l_strs8b"]
 KINDS_LITM = ["o_tags8a", "o_tags8b", "o_tags_rep", "o_tag_uni", "o_k"]
-KINDS_ORDER = ["absent", "null", "int", "float", "bool", "s_abc", "l_int", "o_k"]
+KINDS_SAMESTR = ["absent", "null", "s_abc", "s_xyz", "l_strs_ab", "o_same"]
+KINDS_ORDER = ["absent", "null", "int", "float", "bool", "s_abc", "l_int", "o_k", "l_mixed_ref_int", "l_mixed_ref_str"]
 KINDS_DBG = ["int", "float"]
 KINDS_NEST = ["absent", "null", "o_k", "o_kj", "l_objs", "l_obj_xy", "l_objs_xy_x", "o_xy", "o_xyz", "l_empty", "o_empty", "s_abc",
               "o_parent1", "o_parent2", "l_objs_xys_x"]
@@ -48,6 +49,14 @@ def build(ch, tag, kind, sym=False):
         return leaf(ch, tag, kind, sym)
     if kind in ATOMS:
         return ATOMS[kind]
+    if kind == "l_mixed_ref_int":      # a list mixing an object with a scalar: the union holds a raw nested object
+        return [{"ref": leaf(ch, tag + "[0].ref", "int", sym)}, leaf(ch, tag + "[1]", "int", sym)]
+    if kind == "l_mixed_ref_str":
+        return [{"ref": "n/a"}, leaf(ch, tag + "[1]", "int", sym)]
+    if kind == "l_strs_ab":
+        return ["abc", "xyz"]
+    if kind == "o_same":
+        return {"state": "abc", "reason": "abc"}
     if kind == "l_strs15":
         return list(STRS16[:15])
     if kind == "l_strs16":
